@@ -15,21 +15,32 @@ fn b(s: &str) -> Vec<u8> {
     s.as_bytes().to_vec()
 }
 
-struct Client {
+pub struct Client {
     io: DuplexStream,
     buf: Vec<u8>,
 }
 impl Client {
-    fn connect(state: &ShardedActorState) -> Client {
+    pub fn connect(state: &ShardedActorState) -> Client {
         let (ours, theirs) = tokio::io::duplex(1 << 16);
         let st = state.clone();
         tokio::spawn(async move { run_connection(theirs, st, ConnectionConfig::default()).await });
         Client { io: ours, buf: Vec::new() }
     }
-    async fn call(&mut self, argv: &Argv) -> RespValue {
+    pub async fn call(&mut self, argv: &Argv) -> RespValue {
         if self.io.write_all(&encode_argv(argv)).await.is_err() {
             return RespValue::err("IOERR write");
         }
+        self.read_reply().await
+    }
+    /// send without waiting (pipelining); replies are read with read_reply
+    pub async fn send_all(&mut self, argvs: &[Argv]) -> bool {
+        let mut wire = Vec::new();
+        for a in argvs {
+            wire.extend_from_slice(&encode_argv(a));
+        }
+        self.io.write_all(&wire).await.is_ok()
+    }
+    pub async fn read_reply(&mut self) -> RespValue {
         let mut tmp = [0u8; 4096];
         loop {
             if let Ok((v, n)) = RespParser::parse(&self.buf) {
